@@ -491,6 +491,8 @@ def style_case(sub: Ctx, seed: int, h: int):
             k = rng.choice(sorted(set(styled.values())))
             st = styles[k]
             a = rng.choice(["valign", "halign", "bold", "font_size", "text_inset", "text_wrap", "bg_color", "left_indent"])
+            if a == "bg_color" and st.bg_image is not None:
+                a = "bold"  # a cell has ONE fill: colour next to an image fill is the scenario `image-and-colour-fill`
             from numbers_parser import RGB, Alignment
             cur_h, cur_v = st.alignment.horizontal.name.lower(), st.alignment.vertical.name.lower()
             if a == "valign":
@@ -749,6 +751,18 @@ def scenario(name):
         if got != "two.png":
             return ("bg-image-same-bytes-other-name", "two background images with identical bytes and file names 'one.png', 'two.png': "
                     f"the second cell reloads with bg_image.filename == {got!r}")
+    elif name == "image-and-colour-fill":
+        from numbers_parser import BackgroundImage
+        doc = Document()
+        tb = doc.sheets[0].tables[0]
+        st = doc.add_style(name="both", bg_image=BackgroundImage(PNG, "one.png"))
+        tb.write(0, 0, "a", style=st)
+        st.bg_color = RGB(1, 223, 33)
+        o = tb.cell(0, 0).style.bg_color
+        s2 = cycle(doc).sheets[0].tables[0].cell(0, 0).style.bg_color
+        if (None if o is None else tuple(o)) != (None if s2 is None else tuple(s2)):
+            return ("bg-color-lost-next-to-image-fill", "a style with a background image is also given bg_color=RGB(1, 223, 33): the open "
+                    f"document reports bg_color {tuple(o) if o else None}, the reloaded file {tuple(s2) if s2 else None}")
     elif name == "gradient-style-modified":
         f = REPO / "tests/data/issue-7.numbers"
         if f.exists():
@@ -764,7 +778,8 @@ def scenario(name):
 
 
 SCENARIOS = ["second-stroke", "fingerprint", "fingerprint-1.01", "gradient-read-then-save", "float-not-binary32", "all-colour-values",
-             "all-fonts", "all-alignments", "stroke-then-merge", "stroke-then-write", "gradient-style-modified", "same-image-bytes"]
+             "all-fonts", "all-alignments", "stroke-then-merge", "stroke-then-write", "gradient-style-modified", "same-image-bytes",
+             "image-and-colour-fill"]
 
 
 def _scenario_worker(task):
